@@ -519,6 +519,13 @@ type inliner struct {
 	touched map[*ast.File]bool
 	stack   []*inlCallee
 	keep    map[*ast.CallExpr]bool // calls that stay calls
+	decls   map[types.Object]*declAt // function declarations of the root packages
+	pure    map[types.Object]int8  // 1 pure, 2 impure, 3 in progress
+}
+
+type declAt struct {
+	pkg  *packages.Package
+	decl *ast.FuncDecl
 }
 
 // InlineLog is kept for the evidence file.
@@ -793,6 +800,7 @@ func (in *inliner) firstHoistable(p *packages.Package, es []ast.Expr) (*ast.Call
 	var found *ast.CallExpr
 	var fc *inlCallee
 	stop := false
+	passedPure := false
 	var visit func(e ast.Node, cond bool)
 	visit = func(e ast.Node, cond bool) {
 		if stop || e == nil {
@@ -824,14 +832,25 @@ func (in *inliner) firstHoistable(p *packages.Package, es []ast.Expr) (*ast.Call
 				return
 			}
 			if c := in.calleeAt(p, x); c != nil && !cond {
-				// its own operands are evaluated first, but they travel with the hoisted call
-				found, fc = x, c
-				stop = true
-				return
+				// its own operands are evaluated first, but they travel with the hoisted call; when calls
+				// without effects were passed on the way, the helper must be without effects as well
+				if !passedPure || (c.decl != nil && in.pureDecl(c.pkg, c.decl)) {
+					found, fc = x, c
+					stop = true
+					return
+				}
 			}
 			visit(x.Fun, cond)
 			for _, a := range x.Args {
 				visit(a, cond)
+			}
+			if stop {
+				return
+			}
+			if in.pureCall(p, x) {
+				// a call without effects: a later pure helper may be evaluated before it
+				passedPure = true
+				return
 			}
 			stop = true // some other call comes first
 			return
@@ -1500,4 +1519,202 @@ func (in *inliner) dropDeadClosures(p *packages.Package, f *ast.File, list *[]as
 		i--
 		in.touched[f] = true
 	}
+}
+
+// ---- effect-free functions (syntactic, conservative) -----------------------------------------------
+
+var pureStd = map[string]map[string]bool{
+	"strings":               nil, // whole package
+	"strconv":               nil,
+	"path":                  nil,
+	"unicode":               nil,
+	"unicode/utf8":          nil,
+	"path/filepath":         {"Base": true, "Clean": true, "Join": true, "Dir": true, "Ext": true, "IsAbs": true, "ToSlash": true, "FromSlash": true, "Split": true, "VolumeName": true},
+	"fmt":                   {"Sprintf": true, "Sprint": true, "Errorf": true, "Sprintln": true},
+	"errors":                {"New": true, "Is": true, "As": false},
+	"github.com/pkg/errors": {"New": true, "Errorf": true, "Wrap": true, "Wrapf": true},
+}
+
+func (in *inliner) indexDecls() {
+	if in.decls != nil {
+		return
+	}
+	in.decls = map[types.Object]*declAt{}
+	in.pure = map[types.Object]int8{}
+	for _, p := range in.w.Roots {
+		for _, f := range p.Syntax {
+			for _, d := range f.Decls {
+				if fd, ok := d.(*ast.FuncDecl); ok && fd.Body != nil {
+					if obj := p.TypesInfo.Defs[fd.Name]; obj != nil {
+						in.decls[obj] = &declAt{p, fd}
+					}
+				}
+			}
+		}
+	}
+}
+
+// pureCall: the call has no effect besides computing its result (conversion, builtin without writes,
+// an allow-listed standard function, or a helm function whose body is effect-free by the same test).
+func (in *inliner) pureCall(p *packages.Package, call *ast.CallExpr) bool {
+	in.indexDecls()
+	info := p.TypesInfo
+	if !isRealCall(info, call) {
+		if id, ok := ast.Unparen(call.Fun).(*ast.Ident); ok {
+			if b, isB := info.Uses[id].(*types.Builtin); isB {
+				switch b.Name() {
+				case "len", "cap", "make", "new", "append", "min", "max", "complex", "real", "imag":
+					return true
+				}
+				return false
+			}
+		}
+		return true // conversion
+	}
+	var obj types.Object
+	switch fun := ast.Unparen(call.Fun).(type) {
+	case *ast.Ident:
+		obj = info.Uses[fun]
+	case *ast.SelectorExpr:
+		if sel := info.Selections[fun]; sel != nil {
+			if sel.Kind() != types.MethodVal {
+				return false
+			}
+			if _, isIface := sel.Recv().Underlying().(*types.Interface); isIface {
+				return false
+			}
+			obj = sel.Obj()
+		} else {
+			obj = info.Uses[fun.Sel] // qualified identifier
+		}
+	}
+	fn, ok := obj.(*types.Func)
+	if !ok || fn.Pkg() == nil {
+		return false
+	}
+	if names, isStd := pureStd[fn.Pkg().Path()]; isStd {
+		if sig, _ := fn.Type().(*types.Signature); sig != nil && sig.Recv() != nil {
+			return false
+		}
+		return names == nil || names[fn.Name()]
+	}
+	if d := in.decls[fn.Origin()]; d != nil {
+		return in.pureDecl(d.pkg, d.decl)
+	}
+	return false
+}
+
+func (in *inliner) pureDecl(p *packages.Package, fd *ast.FuncDecl) bool {
+	in.indexDecls()
+	obj := p.TypesInfo.Defs[fd.Name]
+	if obj == nil {
+		return false
+	}
+	switch in.pure[obj] {
+	case 1:
+		return true
+	case 2, 3:
+		return false
+	}
+	in.pure[obj] = 3
+	info := p.TypesInfo
+	ok := true
+	// locals freshly created in this function (make / composite literal): writing their elements is not an effect
+	fresh := map[types.Object]bool{}
+	ast.Inspect(fd.Body, func(n ast.Node) bool {
+		if as, isAs := n.(*ast.AssignStmt); isAs && as.Tok == token.DEFINE && len(as.Lhs) == len(as.Rhs) {
+			for i, r := range as.Rhs {
+				isFresh := false
+				switch x := ast.Unparen(r).(type) {
+				case *ast.CompositeLit:
+					isFresh = true
+				case *ast.CallExpr:
+					if id, ok := ast.Unparen(x.Fun).(*ast.Ident); ok {
+						if b, isB := info.Uses[id].(*types.Builtin); isB && (b.Name() == "make" || b.Name() == "new") {
+							isFresh = true
+						}
+					}
+					if tv, isT := info.Types[x.Fun]; isT && tv.IsType() && len(x.Args) == 1 {
+						if inner, okc := ast.Unparen(x.Args[0]).(*ast.CallExpr); okc {
+							if id, ok := ast.Unparen(inner.Fun).(*ast.Ident); ok {
+								if b, isB := info.Uses[id].(*types.Builtin); isB && b.Name() == "make" {
+									isFresh = true
+								}
+							}
+						}
+					}
+				}
+				if id, isID := as.Lhs[i].(*ast.Ident); isID && isFresh {
+					if o := info.Defs[id]; o != nil {
+						fresh[o] = true
+					}
+				}
+			}
+		}
+		return true
+	})
+	isLocal := func(id *ast.Ident) bool {
+		o := info.Uses[id]
+		if o == nil {
+			o = info.Defs[id]
+		}
+		if o == nil {
+			return id.Name == "_"
+		}
+		return o.Pkg() != nil && o.Parent() != o.Pkg().Scope() && o.Pos() >= fd.Pos() && o.Pos() <= fd.End()
+	}
+	okLHS := func(e ast.Expr) bool {
+		switch x := ast.Unparen(e).(type) {
+		case *ast.Ident:
+			return isLocal(x)
+		case *ast.IndexExpr:
+			if id, isID := ast.Unparen(x.X).(*ast.Ident); isID {
+				o := info.Uses[id]
+				return o != nil && fresh[o]
+			}
+		}
+		return false
+	}
+	ast.Inspect(fd.Body, func(n ast.Node) bool {
+		if !ok {
+			return false
+		}
+		switch x := n.(type) {
+		case *ast.GoStmt, *ast.DeferStmt, *ast.SendStmt, *ast.SelectStmt, *ast.FuncLit:
+			ok = false
+		case *ast.UnaryExpr:
+			if x.Op == token.ARROW {
+				ok = false
+			}
+		case *ast.AssignStmt:
+			if x.Tok != token.DEFINE { // := only introduces (or re-assigns) locals of this function
+				for _, l := range x.Lhs {
+					if !okLHS(l) {
+						ok = false
+					}
+				}
+			}
+		case *ast.IncDecStmt:
+			if !okLHS(x.X) {
+				ok = false
+			}
+		case *ast.RangeStmt:
+			if x.Tok == token.ASSIGN {
+				if (x.Key != nil && !okLHS(x.Key)) || (x.Value != nil && !okLHS(x.Value)) {
+					ok = false
+				}
+			}
+		case *ast.CallExpr:
+			if !in.pureCall(p, x) {
+				ok = false
+			}
+		}
+		return ok
+	})
+	if ok {
+		in.pure[obj] = 1
+	} else {
+		in.pure[obj] = 2
+	}
+	return ok
 }
